@@ -11,22 +11,22 @@ package lsputil
 //@   ensures [valid_bnd] vld(s) ==> bnd(s, result) && result <= len(s)
 //@   ensures [valid_reach] vld(s) ==> u16(s, result) >= utf16Offset || result == len(s)
 //@   ensures [valid_tight] vld(s) && utf16Offset >= 0 ==> u16(s, result) <= utf16Offset + 1
-//@   loop 1 invariant 0 <= iterpos1 && iterpos1 <= len(s) && bnd(s, iterpos1) && byteOffset >= 0
-//@   loop 1 invariant vld(s) ==> byteOffset == iterpos1
-//@   loop 1 invariant utf16Count == u16(s, iterpos1)
-//@   loop 1 invariant utf16Offset >= 0 && iterpos1 > 0 ==> utf16Count <= utf16Offset + 1
+//@   loop 1 invariant 0 <= iterpos && iterpos <= len(s) && bnd(s, iterpos) && byteOffset >= 0
+//@   loop 1 invariant vld(s) ==> byteOffset == iterpos
+//@   loop 1 invariant utf16Count == u16(s, iterpos)
+//@   loop 1 invariant utf16Offset >= 0 && iterpos > 0 ==> utf16Count <= utf16Offset + 1
 
 //@ func UTF16Len
 //@   props C01 C06
 //@   effects none
 //@   ensures [spec] result == u16(s, len(s))
 //@   ensures [nonneg] result >= 0
-//@   loop 1 invariant 0 <= iterpos1 && iterpos1 <= len(s) && bnd(s, iterpos1) && count == u16(s, iterpos1) && count >= 0
+//@   loop 1 invariant 0 <= iterpos && iterpos <= len(s) && bnd(s, iterpos) && count == u16(s, iterpos) && count >= 0
 
 //@ func ByteOffsetToUTF16
 //@   props C01 C06
 //@   ensures [nonneg] result >= 0
-//@   loop 1 invariant 0 <= iterpos1 && iterpos1 <= len(s) && bnd(s, iterpos1) && utf16Count == u16(s, iterpos1) && utf16Count >= 0
+//@   loop 1 invariant 0 <= iterpos && iterpos <= len(s) && bnd(s, iterpos) && utf16Count == u16(s, iterpos) && utf16Count >= 0
 
 //@ pred MapInv(m) := m != nil && len(m.lines) == NL(m.content) && len(m.lineStarts) == len(m.lines) && (forall k int :: 0 <= k && k < len(m.lines) ==> m.lines[k] == substr(m.content, LS(m.content, k), LE(m.content, k)) && m.lineStarts[k] == LS(m.content, k))
 
